@@ -98,19 +98,58 @@ def _steps(res):
     ed = res.get("edit")
     if ed is not None:
         st.append((len(res["runs"]), ed["run"], ed["before"], ed["after"], False, "edit"))
+    for j, a in enumerate(res.get("alt") or []):
+        # the runs in which another KIND is named as truth: whether they may change anything is history_settled's business
+        st.append((len(res["runs"]) + (1 if ed is not None else 0) + j, a["run"], a["before"], a["after"], False, "alt"))
     return st
+
+
+def files_of_kinds(res):
+    """[(key, kind, file)] of every file named on the command line: the first file of each given kind and the further ones"""
+    scn = res["scn"]
+    keys = [k for k in L.KINDS if k in scn["given"]] + [tk for tk in sorted(scn["targets"]) if "#" in tk]
+    return [(tk, L.kind_of(tk), res["paths"][tk]) for tk in keys]
+
+
+def history_settled(res):
+    """after the first run every file named holds the definition sync was to put there, as far as the harness can tell
+    WITHOUT the reader under test: no run raised; in every file the named definition is at its location (independent
+    resolver); a definition that was stale is no longer the one that was there.  Then every file describes the truth of the
+    first run (that is C09), and a later run that names another kind as truth has no changed truth before it: it must change
+    nothing.  (Where C09 fails - the recorded findings - a stale definition survives and naming it as truth IS a change.)"""
+    scn = res["scn"]
+    if any(r["exception"] is not None for r in res["runs"]):
+        return False
+    snap0, snap1 = res["snaps"][0], res["snaps"][1]
+    for tk, k, f in files_of_kinds(res):
+        tree = _parse_or_none(snap1[f]) if f in snap1 else None
+        node = located(tree, scn["names"][k]) if tree is not None else None
+        if node is None:
+            return False
+        t = scn["targets"].get(tk)
+        if t is not None and t["pre"] in ("stale", "stale-tail"):
+            old = _parse_or_none(snap0[f]) if f in snap0 else None
+            onode = located(old, scn["names"][k]) if old is not None else None
+            if onode is not None and ast.dump(onode) == ast.dump(node):
+                return False
+    return True
 
 
 def judge_c10(res):
     """second (and later) runs change no byte; truth file never changes; per-run flags are true exactly for files
     whose bytes changed in that run; printed lines agree."""
     scn, out = res["scn"], []
-    truth_file = res["paths"][scn["truth"]]
+    alt = res.get("alt") or []
+    settled = bool(alt) and history_settled(res)
+    n_before_alt = len(_steps(res)) - len(alt)
+    changed_in_alt = set()
     for i, run, before, after, repeat, phase in _steps(res):
         fx = facts_of(scn, None, run_index=i)
         n0 = len(out)
+        truth_kind = alt[i - n_before_alt]["truth"] if phase == "alt" else scn["truth"]
+        truth_file = res["paths"][truth_kind]
         if before.get(truth_file) != after.get(truth_file):
-            out.append({"target": scn["truth"], "what": "truth file modified by run %d" % i, "facts": fx, "kind": "truth-modified"})
+            out.append({"target": truth_kind, "what": "truth file modified by run %d" % i, "facts": fx, "kind": "truth-modified"})
         extra = set(after) - set(before) - set(res["paths"].values())
         if extra:
             out.append({"target": "*", "what": "unexpected files created: %s" % sorted(extra), "facts": fx, "kind": "extra-files"})
@@ -120,6 +159,21 @@ def judge_c10(res):
                     k = next((kk for kk in res["paths"] if res["paths"][kk] == f), None)
                     out.append({"target": k or f, "what": "run %d changed %s again (sync is not idempotent)" % (i, f),
                                 "facts": facts_of(scn, k, run_index=i), "kind": "again1" if i == 1 else "again2+"})
+        if phase == "alt" and settled:
+            # no truth was edited since the first run, only the kind named as truth changed: nothing may change, nothing raise
+            hist = "%s, then %s" % (scn["truth"], ", ".join(a["truth"] for a in alt[:i - n_before_alt + 1]))
+            if run["exception"] is not None:
+                out.append({"target": "*", "what": "run %d (truth kinds so far: %s) raised %s although no file was edited since the "
+                                                   "first run" % (i, hist, run["exception"]), "facts": fx, "kind": "raised"})
+            for f in sorted(set(before) | set(after)):
+                if before.get(f) != after.get(f):
+                    k = next((kk for kk in res["paths"] if res["paths"][kk] == f), None)
+                    # the first time a file changes in this phase it is a change as the second run's (a file that was the truth
+                    # so far is formatted when it is first handled as a target), any further change is one of the later runs'
+                    out.append({"target": k or f, "what": "run %d changed %s although no file was edited since the first run, only the "
+                                                          "kind named as truth changed (%s)" % (i, f, hist),
+                                "facts": facts_of(scn, k, run_index=i), "kind": "again2+" if f in changed_in_alt else "again1"})
+                    changed_in_alt.add(f)
         if run["exception"] is None and run["result"] is not None:
             for f, flag in run["result"]:
                 changed = before.get(f) != after.get(f)
@@ -175,7 +229,10 @@ def _clean_docstrings(tree):
     for n in ast.walk(tree):
         if isinstance(n, (ast.Module, ast.ClassDef, ast.FunctionDef, ast.AsyncFunctionDef)) and n.body and \
                 isinstance(n.body[0], ast.Expr) and isinstance(n.body[0].value, ast.Constant) and isinstance(n.body[0].value.value, str):
-            n.body[0].value.value = inspect.cleandoc("\n".join(l.rstrip() for l in n.body[0].value.value.split("\n"))).strip("\n")
+            # (a tab INSIDE a line is content, not indentation: cleandoc would expand it, so it is kept behind a marker)
+            lines = [l.rstrip() for l in n.body[0].value.value.split("\n")]
+            lines = [l[:len(l) - len(l.lstrip())] + l.lstrip().replace("\t", "\x00TAB\x00") for l in lines]
+            n.body[0].value.value = inspect.cleandoc("\n".join(lines)).strip("\n")
     return tree
 
 
@@ -266,7 +323,10 @@ def judge_c11(res):
     scn, out = res["scn"], judge_bodies(res)
     for i, run, before, after, repeat, phase in _steps(res):
         n0 = len(out)
-        for tk in scn["targets"]:
+        # in a run that names another kind as truth every file named is a target but that run's truth (its being modified is
+        # C10's business), the file that held the truth so far included
+        keys = list(scn["targets"]) if phase != "alt" else [tk for tk, _, _ in files_of_kinds(res)]
+        for tk in keys:
             k = L.kind_of(tk)
             f = res["paths"][tk]
             if before.get(f) == after.get(f) or f not in after:
